@@ -37,6 +37,7 @@ type Engine struct {
 	inlineExternal  map[string]bool
 	effectsMemo     map[*ssa.Function]*effects
 	funcIndex       map[string]*ssa.Function
+	eventIDs        map[string]int
 	mu              sync.Mutex
 	loadSeconds     float64
 	contractFiles   []string
@@ -165,6 +166,21 @@ func (e *Engine) funcID(fn *ssa.Function) int {
 	}
 	id := len(e.funcIDs) + 1
 	e.funcIDs[fn] = id
+	return id
+}
+
+// eventID numbers the interface methods that appear in the event log.
+func (e *Engine) eventID(name string) int {
+	e.mu.Lock()
+	defer e.mu.Unlock()
+	if e.eventIDs == nil {
+		e.eventIDs = map[string]int{}
+	}
+	if id, ok := e.eventIDs[name]; ok {
+		return id
+	}
+	id := len(e.eventIDs) + 1
+	e.eventIDs[name] = id
 	return id
 }
 
